@@ -44,6 +44,8 @@ def check(model, tier):
     _sqlemit.r02_3_hoisted_projection(ctx, rule="R17.12")
     _sqlplace.r02_1_placement_table(ctx, rule="R17.10")
     _sqlplace.r_sort_mapping(ctx, "R17.11")
+    _sqlplace.r08_2_compound_guard(ctx, rule="R17.13")  # strip() hands back the marker's target and whether a projection went with it
+    _sqlplace.r_slice_keeps_its_sort(ctx, "R17.14")
     _sqlemit.r02_2_join_payload(ctx, rule="R17.9")  # a join keeps a stripped operand only when nothing it hides can shadow
     from ..rules.foundation import run_foundation
 
